@@ -38,6 +38,9 @@ Inductive cend :=
 | EPeerClose               (* EOF from the peer: serve returns io.EOF, Err() != nil *)
 | EProtoErr                (* malformed / unknown packet: serve returns the error *)
 | EKeepAlive               (* no PINGRESP: keep-alive goroutine sets ErrPingTimeout and closes (121-143) *)
+| ERetryClose             (* a request failed with a retry handle on a healthy connection (e.g. no PUBACK within
+                              ResponseTimeout): the RetryClient task goroutine closes the client to get a new
+                              connection (retryclient.go:368-372, cli.Close()): the reader ends with an error, Err() != nil *)
 | EGraceful.               (* the base client was disconnected on purpose: Err() == nil (146-151) *)
 
 Inductive outcome :=
